@@ -324,6 +324,9 @@ def c19_jobs(tier):
     for (t, b, n, qb, pre) in procs:
         jobs.append({"pkgdir": P, "func": "VerifC19_Processor", "params": {"threads": t, "buffer": b, "nops": n, "qbuf": qb},
                      "sched": "sym", "preempt": pre, "timeout_s": 600 if tier == "quick" else 3000})
+    for (t, b, n, pre) in ([(2, 0, 2, 2), (2, 1, 3, 1), (3, 0, 2, 1)] if tier == "quick" else [(2, 0, 2, 3), (2, 1, 3, 2), (3, 0, 3, 2), (3, 1, 2, 2)]):
+        jobs.append({"pkgdir": P, "func": "VerifC19_ProcessorStop", "params": {"threads": t, "buffer": b, "nops": n},
+                     "sched": "sym", "preempt": pre, "timeout_s": 600 if tier == "quick" else 3000})
     for (n, t, c, pre) in ([(0, 1, 1, 1), (3, 2, 1, 1), (4, 2, 3, 1)] if tier == "quick" else [(0, 1, 1, 2), (3, 2, 1, 2), (4, 2, 3, 2), (4, 1, 2, 2), (2, 2, 3, 2)]):
         jobs.append({"pkgdir": P, "func": "VerifC19_Map", "params": {"n": n, "threads": t, "chunk": c}, "sched": "sym", "preempt": pre,
                      "timeout_s": 600 if tier == "quick" else 3000})
@@ -504,7 +507,13 @@ CHECKS["C02"] = {
 
 def c14_jobs(tier):
     jobs = []
-    shapes = [(2, 3, 0, 1, 4, 4, 0), (2, 3, 0, 1, 4, 4, 1)] if tier == "quick" else [(2, 3, 0, 1, 4, 4, 0), (2, 3, 0, 1, 4, 4, 1), (2, 4, 1, 1, 5, 5, 0), (2, 3, 0, 2, 5, 4, 0)]
+    # (k, n, e, offset, |T|, |Q|, self). The first three are the smallest shapes on which the three
+    # defects repaired in /repo (known_findings.txt, fixed: C14) were found by this check.
+    shapes = [(1, 1, 0, 2, 2, 3, 0), (1, 2, 1, 3, 2, 5, 0), (3, 3, 0, 1, 4, 5, 0), (1, 2, 1, 1, 3, 4, 1),
+              (2, 3, 0, 2, 3, 5, 0), (2, 3, 0, 1, 4, 4, 0), (2, 3, 0, 1, 4, 4, 1)]
+    if tier != "quick":
+        shapes += [(1, 2, 0, 2, 3, 4, 0), (1, 3, 1, 2, 3, 5, 0), (1, 2, 1, 2, 3, 5, 1), (1, 3, 2, 2, 3, 5, 0),
+                   (2, 4, 1, 1, 5, 5, 0), (2, 3, 0, 2, 5, 4, 0), (2, 2, 0, 3, 3, 5, 0)]
     for (k, n, e, off, tl, ql, self) in shapes:
         j = {"pkgdir": "align/pals/filter", "func": "VerifC14_Filter", "sched": "det", "fsmodel": True,
              "params": {"k": k, "n": n, "e": e, "offset": off, "tlen": tl, "qlen": ql, "self": self}, "timeout_s": 900 if tier == "quick" else 3000}
@@ -516,5 +525,5 @@ CHECKS["C14"] = {
     "jobs": c14_jobs,
     "functions": ["filter.{New,(*Filter).Filter,commonKmer,hitTube,tubeEnd,tubeFlush,addHit,diagIndex,tubeIndex,MinWordsPerFilterHit}", "kmerindex (as C10)", "morass in-memory path"],
     "explanation": "tiny bounds: both sequences symbolic over {a,c,g,t}; every pair of length-n windows with at most e substitutions must be covered by a reported hit (query interval overlaps, diagonal band contains the match diagonal, read as the consumer MergeFilterHit reads it)",
-    "outside": "anything beyond |T|,|Q| <= 5 and k = 2",
+    "outside": "every shape (k, n, e, offset, |T|, |Q|) other than the listed ones: the shapes are concrete, only the letters are symbolic; k <= 3, |T| <= 5, |Q| <= 5; complement-strand mode",
 }
